@@ -95,7 +95,7 @@ def sh(cmd, timeout=1800, cwd=None, env=None):
 
 def coq_sources():
     out = []
-    for sub in ('Model', 'Gen', 'Proofs', 'Checks', 'Props', 'Refuted'):
+    for sub in ('Model', 'Gen', 'Proofs', 'Checks', 'Props'):
         d = os.path.join(COQ, sub)
         if os.path.isdir(d):
             for f in sorted(os.listdir(d)):
